@@ -59,9 +59,14 @@ def _convex_polygon(rng, kind, n):
     """n points in order on a convex polygon (counter-clockwise)."""
     if kind == "custom":
         if rng.random() < 0.5:
-            ang = sorted(rng.uniform(0, 2 * math.pi) for _ in range(n))
-            # avoid (near-)coincident points
-            ang = [a + 1e-3 * i for i, a in enumerate(ang)]
+            # n distinct angles in increasing order covering less than one turn: random gaps, each at least a fixed share of the mean gap
+            gaps = [rng.random() + 0.05 for _ in range(n)]
+            tot = sum(gaps)
+            a0 = rng.uniform(0, 2 * math.pi)
+            ang, acc = [], 0.0
+            for g in gaps:
+                ang.append(a0 + 2 * math.pi * acc / tot)
+                acc += g
             rx, ry = rng.uniform(0.5, 3), rng.uniform(0.5, 3)
             return np.array([[rx * math.cos(a), ry * math.sin(a)] for a in ang]), None
         return np.array([[math.cos(2 * math.pi * i / n + 0.3), math.sin(2 * math.pi * i / n + 0.3)] for i in range(n)]) * 2.5, None
@@ -134,6 +139,14 @@ def _disk_case(desc, ctx):
     if mode.startswith("custom"):
         bv = [int(v) for v in m.boundary_vertices]
         poly, sides = _convex_polygon(rng, mode, nb)
+        # harness self-check: the target must be a convex polygon traversed once (strictly convex unless collinear runs are intended)
+        Pq = np.asarray(poly, float)
+        crs = [float((Pq[(i + 1) % nb] - Pq[i])[0] * (Pq[(i + 2) % nb] - Pq[(i + 1) % nb])[1] - (Pq[(i + 1) % nb] - Pq[i])[1] * (Pq[(i + 2) % nb] - Pq[(i + 1) % nb])[0])
+               for i in range(nb)]
+        turn = float(np.sum(np.abs(np.diff(np.unwrap(np.arctan2(np.roll(Pq, -1, 0)[:, 1] - Pq[:, 1], np.roll(Pq, -1, 0)[:, 0] - Pq[:, 0]))))))
+        if min(crs) < (-1e-12 if sides is not None else 1e-14) or turn > 2 * math.pi + 1e-6:
+            ctx.cls("custom:target_not_convex_skipped")
+            return
         rank = {v: i for i, v in enumerate(loop)}
         kwargs["custom_boundary"] = np.array([poly[rank[v]] for v in bv])
         target = {v: poly[rank[v]] for v in loop}
